@@ -398,7 +398,12 @@ CHECKS = {
          'the new upper bound, upper bound never increases and is afterwards '
          'at most path cost + any cover of the node, unchanged when nothing is '
          'returned (C09_branch_and_bound_invariants); independent-set lower '
-         'bound and greedy upper bound valid. The checker is_min_prime_cover_b '
+         'bound and greedy upper bound valid. Totality (C09_total, '
+         'C09_full_total): for every pick that returns an element of every '
+         'non-empty set the model returns a cover on every instance (the '
+         'cyclic-core fixpoint ends within 2(|X|+|Y|)+2 iterations, in the '
+         'core every x has two covers so both branches stay feasible, '
+         'recursion depth <= |Y|, no pick from an empty set). The checker is_min_prime_cover_b '
          'is sound and complete for the property statement on every finite '
          'instance; the reference returns a minimum cover; the literal '
          'quantified _floor/_contains_covered formulas equal joins/meets. The '
@@ -413,8 +418,7 @@ CHECKS = {
    note=('Trusted: Coq kernel+vm_compute; hand model tied by cyclic_core '
          'equality, cardinality comparison and the checker; dd by meaning '
          '(the theorem holds for every pick function); model describes the '
-         'F13- and F16-repaired code; termination (fuel) of the model is not '
-         'part of C09_full (it speaks about returned covers). No axioms.')),
+         'F13- and F16-repaired code. No axioms.')),
  'C10': dict(
    design_ref='§6 C10',
    technique='Coq proof: whenever the model of cover_enum.py returns, its result is exactly the set of all minimum covers by primes, for all inputs and all pick functions (exhaustive branch and bound, reduction steps, enumerations); verified reference and checker of "exactly all minimum covers by primes" evaluated by vm_compute on the real result',
